@@ -23,6 +23,18 @@ MUTANTS = {
         ('readall-no-offset', 'dashlive/utils/buffered_reader.py', 'self.reader.seek(self.pos + self.offset)', 'self.reader.seek(self.pos)'),
         ('evict-newest', 'dashlive/utils/buffered_reader.py', 'v.timestamp < oldest', 'v.timestamp > oldest'),   # harmless: must survive
     ],
+    'C08': [
+        ('today-minute', 'dashlive/mpeg/dash/timing.py', 'if self.publishTime.hour == 0 and self.publishTime.minute == 0:', 'if self.publishTime.hour == 0 and self.publishTime.minute == 1:'),
+        ('month-no-backoff', 'dashlive/mpeg/dash/timing.py', "                day=1, hour=0, minute=0, second=0, microsecond=0)\n            if (self.publishTime - self.availabilityStartTime) < one_day:\n                self.availabilityStartTime -= one_day", "                day=1, hour=0, minute=0, second=0, microsecond=0)"),
+        ('now-30s', 'dashlive/mpeg/dash/timing.py', 'datetime.timedelta(seconds=self.DEFAULT_TIMESHIFT_BUFFER_DEPTH))', 'datetime.timedelta(seconds=30))'),
+        ('depth-clamp', 'dashlive/mpeg/dash/timing.py', 'if self.elapsedTime.total_seconds() < self.timeShiftBufferDepth:', 'if self.elapsedTime.total_seconds() + 10 < self.timeShiftBufferDepth:'),
+        ('fat-plus', 'dashlive/mpeg/dash/timing.py', 'self.firstAvailableTime = self.elapsedTime - datetime.timedelta(', 'self.firstAvailableTime = self.elapsedTime + datetime.timedelta('),
+        ('publish-ceil', 'dashlive/mpeg/dash/timing.py', 'self.elapsedTime.total_seconds() // self.minimumUpdatePeriod)', 'self.elapsedTime.total_seconds() // self.minimumUpdatePeriod) + 1'),
+        ('publish-no-trunc', 'dashlive/mpeg/dash/timing.py', '            self.publishTime = self.publishTime.replace(microsecond=0)\n', ''),
+        ('mup-zero-kept', 'dashlive/mpeg/dash/timing.py', '        elif self.minimumUpdatePeriod <= 0:', '        elif self.minimumUpdatePeriod < 0:'),
+        ('depth-negative', 'dashlive/mpeg/dash/timing.py', 'if not self.timeShiftBufferDepth or self.timeShiftBufferDepth < 0:', 'if not self.timeShiftBufferDepth:'),
+        ('leeway-ms', 'dashlive/mpeg/dash/timing.py', 'self.leeway = datetime.timedelta(seconds=options.leeway)', 'self.leeway = datetime.timedelta(milliseconds=options.leeway)'),
+    ],
     'C13': [
         ('range-no-suffix-clamp', 'dashlive/server/requesthandler/base.py', 'start = max(0, content_length - amount)', 'start = content_length - amount'),
         ('range-no-last-clamp', 'dashlive/server/requesthandler/base.py', 'end = min(int(end_str, 10), content_length - 1)', 'end = int(end_str, 10)'),
